@@ -118,7 +118,7 @@ def random_cut(rng):
 class Scenario:
     """A capture with N TLS connections + ground truth."""
 
-    def __init__(self, rng, combos, v6=None, cut="random", sports=None, app=None, shapes=None):
+    def __init__(self, rng, combos, v6=None, cut="random", sports=None, app=None, shapes=None, resched=0.3):
         self.rng = rng
         self.parts = []
         for i, (code, version, etm) in enumerate(combos):
@@ -127,6 +127,7 @@ class Scenario:
             sc = gen_tls.Script(version, code, app[i] if app else random_app(rng), rng, **shape)
             ep = random_endpoints(rng, i, v6=v6, sport=(sports[i] if sports else 443))
             conn = gen_tls.TcpConn(**ep)
+            conn.want_reschedule = rng.random() < resched
             c = random_cut(rng) if cut == "random" else cut
             self.parts.append((sc, conn, c))
         self.items, self.keylog, self.truths = gen_tls.build_capture(self.parts, rng)
@@ -143,7 +144,8 @@ class Scenario:
         return [{"version": sc.v, "suite": f"{sc.code:04X}", "name": spec_suites.R[sc.code], "etm": sc.etm,
                  "shape": {k: (v if isinstance(v, (int, float, str, bool)) else "…") for k, v in sc.shape.items()},
                  "records": [(d, len(p)) for d, p in sc.app], "v6": len(conn.cip) == 16,
-                 "cut": getattr(c, "__name__", "flight") if c else "flight", "segments": len(conn.pkts)}
+                 "cut": getattr(c, "__name__", "flight") if c else "flight", "segments": len(conn.pkts),
+                 "rescheduled": bool(getattr(conn, "want_reschedule", False))}
                 for sc, conn, c in self.parts]
 
     def replay_blob(self, args=()):
@@ -211,7 +213,7 @@ class Mixed:
                'same-cport' (the same client ip:port towards different servers)."""
 
     def __init__(self, rng, tls_combos, n_quic=0, pattern="random", noise=True, v6=None, quic_features=None,
-                 tls_app=None):
+                 tls_app=None, resched=0.3):
         import gen_quic
         self.rng = rng
         self.tls, self.quic = [], []
@@ -234,6 +236,9 @@ class Mixed:
             flights, truth = sc.render()
             for d, data in flights:
                 conn.send(d, data, rng, cut)
+            if rng.random() < resched:
+                conn.reschedule(rng)
+                conn.want_reschedule = True
             self.tls.append({"script": sc, "conn": conn, "truth": truth, "keylog": sc.keylog_lines()})
             per.append([f for _, f, *_ in conn.pkts])
             self.kinds.append(("tls", len(self.tls) - 1))
